@@ -58,6 +58,22 @@ CLAIMED = {
         "verified: the lifespan table (taken from the implementation as input), zone routing of array payloads (exercised by the oracle only).",
         "6 (C14)",
     ),
+    "C01": (
+        "Coq proof (chunking independence by induction over arbitrary read partitions; totality of the frame/packet constructor and reader as a filter-map by case analysis over every raise site; verified regex matcher on the regenerated COMMAND_REGEX) + correspondence on the real transports/constructors",
+        "10 theorems in coq/props/C01.v about coq/model/M_Frame.v (= PortTransport._read_ready.bytes_read, transport._str/_normalise, "
+        "Packet._partition, Frame.__init__ via the regenerated COMMAND_REGEX and a proved-correct derivative matcher, pkt_addrs, "
+        "Frame._has_array with its assertions, pkt_lifespan, Packet.__init__, Packet.from_file, _frame_read, the reader loop): the "
+        "lines delivered depend only on the concatenated bytes for EVERY partition into reads; for EVERY ASCII line the constructor "
+        "ends in a packet, PacketInvalid or ValueError, so no line escapes _frame_read and a reader is exactly a filter-map of its "
+        "lines (a bad line never stops later ones). Tie: the same generated lines (log lines, <=3-edit mutants, regex-generated "
+        "payloads, chatter) through the real _frame_read and the model (frame text, rssi, src/dst, lifespan, outcome class); the "
+        "same byte streams x partitions through the real _read_ready and the model. Oracle: exception classes leaving "
+        "Packet.from_file/from_port/from_dict and Message(pkt), every partition vs a single read, log files with bad lines through a gateway.",
+        "Trusted: Coq kernel, translator (regex/table regeneration), harness. Modelled not verified: str.split fields = fixed columns "
+        "after the regex matched; datetime.fromisoformat (its outcome is an input); the 109 payload parsers behind Message(pkt) are "
+        "not modelled -- their exception fence is exercised by the oracle only; non-ASCII input only by the oracle.",
+        "6 (C01)",
+    ),
 }
 
 NOT_YET = "not claimed yet: the Coq model and correspondence harness for this property are not built in this revision (planned in DESIGN.md section 6)"
